@@ -642,16 +642,21 @@ def normalise(j):
 
 
 class Crate:
-    def __init__(self, path):
+    def __init__(self, path, known_names=None):
         self.j = normalise(json.load(open(path)))
         self.name = self.j['crate']
-        self.bodies = [Body(b, self) for b in self.j['bodies']]
-        self.by_key = {b.key: b for b in self.bodies}
+        self.inlined_helpers = set()
+        if known_names is not None:
+            self.inlined_helpers = inline_unknown_helpers(self.j, known_names)
+        self.all_bodies = [Body(b, self) for b in self.j['bodies']]
+        # helpers that were inlined into their callers are analysed there, not on their own
+        self.bodies = [b for b in self.all_bodies if b.key not in self.inlined_helpers]
+        self.by_key = {b.key: b for b in self.all_bodies}
         self.by_pretty = defaultdict(list)
         for b in self.bodies:
             self.by_pretty[b.pretty].append(b)
         # stable, generics-free function names used in obligation keys
-        for b in sorted(self.bodies, key=lambda x: len(x.key)):
+        for b in sorted(self.all_bodies, key=lambda x: len(x.key)):
             j = b.j
             if b.kind == 'Closure':
                 parent = self.by_key.get(j.get('parent'))
@@ -663,7 +668,7 @@ class Crate:
             else:
                 b.fname = strip_generics(b.pretty)
         cnt = defaultdict(list)
-        for b in self.bodies:
+        for b in self.all_bodies:
             if b.kind != 'Closure':
                 cnt[b.fname].append(b)
         for name, lst in cnt.items():
@@ -674,7 +679,7 @@ class Crate:
                         b.fname = '<%s as %s>::%s' % (j.get('impl_self_ty'), strip_generics(j['impl_trait_ref']).split(' as ')[-1].rstrip('>'), b.name)
                     elif j.get('impl_self_ty'):
                         b.fname = '<%s>::%s' % (j['impl_self_ty'], b.name)
-        for b in sorted(self.bodies, key=lambda x: len(x.key)):
+        for b in sorted(self.all_bodies, key=lambda x: len(x.key)):
             if b.kind == 'Closure':
                 parent = self.by_key.get(b.j.get('parent'))
                 if parent is not None:
@@ -728,3 +733,133 @@ def strip_generics(s):
             out.append(ch)
         i += 1
     return ''.join(out)
+
+
+# --------------------------------------------------------------------------------------------
+# Inlining of helper functions the rules have never seen (tables/known_functions.json)
+
+def _remap_place(p, lmap):
+    q = {'local': lmap(p['local']), 'proj': []}
+    for e in p['proj']:
+        if e['k'] == 'index':
+            e = dict(e)
+            e['local'] = lmap(e['local'])
+        q['proj'].append(e)
+    return q
+
+
+def _remap_op(o, lmap):
+    if not isinstance(o, dict):
+        return o
+    if o.get('k') in ('copy', 'move'):
+        return {'k': o['k'], 'place': _remap_place(o['place'], lmap)}
+    return o
+
+
+def _remap_rv(rv, lmap):
+    r = dict(rv)
+    for k in ('op', 'l', 'r', 'arg'):
+        if isinstance(r.get(k), dict):
+            r[k] = _remap_op(r[k], lmap)
+    if 'place' in r:
+        r['place'] = _remap_place(r['place'], lmap)
+    if 'fields' in r:
+        r['fields'] = [_remap_op(f, lmap) for f in r['fields']]
+    return r
+
+
+def _inline_one(caller, bb, callee):
+    """splice `callee` (body JSON) into `caller` (body JSON, modified in place) at the call in block bb"""
+    t = caller['blocks'][bb]['term']
+    base_l = len(caller['locals'])
+    base_b = len(caller['blocks'])
+    lmap = lambda l: base_l + l
+    bmap = lambda x: base_b + x
+    for l in callee['locals']:
+        d = dict(l)
+        d.pop('name', None)
+        caller['locals'].append(d)
+    # pass arguments
+    stmts = caller['blocks'][bb]['stmts']
+    for i, a in enumerate(t['args']):
+        stmts.append({'k': 'assign', 'dest': {'local': lmap(i + 1), 'proj': []}, 'rv': {'k': 'use', 'op': a}, 'span': t['span']})
+    ret_target = t.get('target')
+    unwind = t.get('unwind')
+    dest = t['dest']
+    caller['blocks'][bb]['term'] = {'k': 'goto', 'target': bmap(0), 'span': t['span']}
+    for blk in callee['blocks']:
+        nb = {'cleanup': blk['cleanup'] or caller['blocks'][bb]['cleanup'], 'stmts': [], 'term': None}
+        for s in blk['stmts']:
+            s2 = dict(s)
+            if s['k'] in ('assign', 'setdiscr'):
+                s2['dest'] = _remap_place(s['dest'], lmap)
+            if s['k'] == 'assign':
+                s2['rv'] = _remap_rv(s['rv'], lmap)
+            nb['stmts'].append(s2)
+        ct = dict(blk['term'])
+        k = ct['k']
+        if k == 'return':
+            nb['stmts'].append({'k': 'assign', 'dest': dest, 'rv': {'k': 'use', 'op': {'k': 'move', 'place': {'local': lmap(0), 'proj': []}}}, 'span': ct['span']})
+            ct = {'k': 'goto', 'target': ret_target, 'span': ct['span']} if ret_target is not None else {'k': 'unreachable', 'span': ct['span']}
+        elif k == 'resume':
+            ct = {'k': 'goto', 'target': unwind, 'span': ct['span']} if isinstance(unwind, int) else ct
+        else:
+            if k == 'goto':
+                ct['target'] = bmap(ct['target'])
+            elif k == 'switch':
+                ct['discr'] = _remap_op(ct['discr'], lmap)
+                ct['targets'] = [[v, bmap(x)] for v, x in ct['targets']]
+                ct['otherwise'] = bmap(ct['otherwise'])
+            elif k in ('call', 'drop', 'assert'):
+                if ct.get('target') is not None:
+                    ct['target'] = bmap(ct['target'])
+                u = ct.get('unwind')
+                if isinstance(u, int):
+                    ct['unwind'] = bmap(u)
+                elif u == 'continue':
+                    ct['unwind'] = unwind
+                if k == 'call':
+                    ct['args'] = [_remap_op(a, lmap) for a in ct['args']]
+                    ct['dest'] = _remap_place(ct['dest'], lmap)
+                    if 'func_place' in ct:
+                        ct['func_place'] = _remap_place(ct['func_place'], lmap)
+                elif k == 'drop':
+                    ct['place'] = _remap_place(ct['place'], lmap)
+                elif k == 'assert':
+                    ct['cond'] = _remap_op(ct['cond'], lmap)
+        nb['term'] = ct
+        caller['blocks'].append(nb)
+    caller.setdefault('inlined', []).append(callee['pretty'])
+
+
+def inline_unknown_helpers(j, known_names, max_rounds=3):
+    """j: crate JSON. Inline calls to crate-local fn items whose name is not in known_names."""
+    import copy
+    by_key = {b['key']: b for b in j['bodies']}
+    helpers = {}
+    for b in j['bodies']:
+        if b['kind'] in ('Fn', 'AssocFn') and b.get('name') and b['name'] not in known_names and not b.get('impl_trait') \
+                and len(b['blocks']) <= 80:
+            helpers[b['key']] = b
+    if not helpers:
+        return set()
+    originals = {k: copy.deepcopy(v) for k, v in helpers.items()}
+    used = set()
+    for _ in range(max_rounds):
+        changed = False
+        for b in j['bodies']:
+            for bb in range(len(b['blocks'])):
+                t = b['blocks'][bb]['term']
+                if t['k'] != 'call':
+                    continue
+                c = t['callee']
+                ck = c.get('resolved') or c.get('key')
+                if ck in helpers and ck != b['key'] and t.get('target') is not None or (ck in helpers and ck != b['key']):
+                    if len(b['blocks']) > 600:
+                        continue
+                    _inline_one(b, bb, copy.deepcopy(originals[ck]))
+                    used.add(ck)
+                    changed = True
+        if not changed:
+            break
+    return used
